@@ -476,3 +476,10 @@ SPECS["C20"] = dict(
     level_text="component level: each real operation of lp/process.c changes the statistics counters by exactly what happened (hence undone <= forward cumulatively); the binary file layout is NOT covered",
     queries=[P_L4, P_L3, P_STEP0],
 )
+
+SPECS["C10"]["queries"] += [
+    Q("serial_drain_3_2", "c10_serial.c", defs={"N0": 3, "NSCHED": 2}, unwind=8, timeout=2400, cost=8, mem_est=5,
+      bounds="real serial_simulation_run(): <= 3 initial events + 2 events scheduled during the run, 2 LPs, timestamps 0..3 with ties, zero-delay events, 2 types, 0..1 payload bytes, arbitrary GVT-period timer; compared with a textbook event-list executor"),
+]
+SPECS["C10"]["assumptions"] += ["serial drain: per-LP initialisation/finalisation (LP_INIT/LP_FINI dispatch, generator seeding) is not part of this query; the model respects the API contract 'never schedule an event before the one being processed in the full event order' (the runtime itself checks it in debug builds)"]
+SPECS["C10"]["outside"] += ["serial_simulation_init / serial_simulation_fini (LP_INIT once per LP first, LP_FINI once per LP last) are not encoded", "stop conditions (all predicates hold / termination time) are not exercised: predicates are constantly false"]
